@@ -260,6 +260,73 @@ def wildcard_deletes(col, rng):
         col.count('successful_deletions')
 
 
+class AttrDict(dict):
+    """dict subclass whose instances also carry attributes"""
+
+
+class AttrList(list):
+    """list subclass whose instances also carry attributes"""
+
+
+def _attr_holders():
+    d = AttrDict({'x': 'item-x', 'y': 'item-y'})
+    d.x, d.only_attr = 'attr-x', 'attr-only'
+    l = AttrList(['e0', 'e1'])
+    l.x, l.only_attr = 'attr-x', 'attr-only'
+    return {'d': d, 'l': l, 'hs': [d, l]}
+
+
+def _attr_state(t):
+    return {k: (type(h).__name__, list(h.items()) if isinstance(h, dict) else list(h), sorted(h.__dict__.items()))
+            for k, h in (('d', t['d']), ('l', t['l']))}
+
+
+def attribute_vs_item_on_container_subclasses(col):
+    """instances of dict / list subclasses that carry attributes as well as items: T.attr as the final step is `del obj.attr`,
+    T[key] and plain path segments are `del obj[key]` - whatever the other namespace holds under the same name"""
+    def expect(kind, holder, name):
+        def edit(t):
+            if kind == 'attr':
+                delattr(t[holder], name)
+            else:
+                del t[holder][name]
+        return edit
+    cases = [
+        # (description, spec factory, reference edit or None = the element is missing, class expected when missing)
+        ('T.attr, same-named key exists', lambda: T['d'].x, expect('attr', 'd', 'x')),
+        ('T.attr, attribute only', lambda: T['d'].only_attr, expect('attr', 'd', 'only_attr')),
+        ('T.attr absent, same-named key exists', lambda: T['d'].y, None),
+        ("T['key'], same-named attribute exists", lambda: T['d']['x'], expect('item', 'd', 'x')),
+        ("T['key'] absent, same-named attribute exists", lambda: T['d']['only_attr'], None),
+        ('plain segment on a dict subclass', lambda: 'd.x', expect('item', 'd', 'x')),
+        ('Path segment on a dict subclass', lambda: Path('d', 'y'), expect('item', 'd', 'y')),
+        ('T.attr on a list subclass', lambda: T['l'].x, expect('attr', 'l', 'x')),
+        ('T.attr absent on a list subclass', lambda: T['l'].nope, None),
+        ('T[index] on a list subclass', lambda: T['l'][0], expect('item', 'l', 0)),
+        ('plain segment on a list subclass', lambda: 'l.1', expect('item', 'l', 1)),
+        ('T.attr behind a star', lambda: T['hs'].__star__().x, lambda t: (delattr(t['d'], 'x'), delattr(t['l'], 'x'))),
+    ]
+    for desc, mk, edit in cases:
+        for ignore in (False, True):
+            t, twin = _attr_holders(), _attr_holders()
+            if edit is not None:
+                edit(twin)
+            got = call(delete, t, mk(), ignore_missing=ignore)
+            col.case(('attr-vs-item', desc, ignore), True)
+            col.count('deletions_attempted')
+            col.count('attribute_vs_item_cases')
+            want = _attr_state(twin)
+            if edit is None and not ignore:
+                if got.ok or not isinstance(got.exc, PathDeleteError) or _attr_state(t) != want:
+                    col.violation('C12/container-subclass-with-attributes:missing-not-PathDeleteError-or-modified',
+                                  'delete(.., %s) [%s]: %r ; holders now %s, expected unchanged %s' % (short(mk()), desc, got, _attr_state(t), want), None)
+                continue
+            if not got.ok or _attr_state(t) != want:
+                col.violation('C12/container-subclass-with-attributes:wrong-namespace',
+                              'delete(.., %s%s) [%s]: %r ; holders now %s, plain Python gives %s'
+                              % (short(mk()), ', ignore_missing=True' if ignore else '', desc, got if not got.ok else 'returned', _attr_state(t), want), None)
+
+
 def reused_delete_object(col, rng):
     """one Delete object applied to parents of different kinds, in every order, and one wildcard over mixed kinds"""
     import itertools
@@ -298,6 +365,7 @@ def run(ctx):
     col.require('faults_injected', 20)
     wildcard_deletes(col, rng)
     if ctx.shard == 0:
+        attribute_vs_item_on_container_subclasses(col)
         reused_delete_object(col, rng)
     for i in range(ctx.n(350, 3500)):
         one_target(col, rng)
